@@ -722,6 +722,8 @@ func Fle32(a, b int64) int64 { return tf(g(a) <= g(b)) }
 func F64to32(a int64) int64 { return b32(float32(f(a))) }
 func F32to64(a int64) int64 { return b64(float64(g(a))) }
 func Fint64to64(a int64) int64 { return b64(float64(a)) }
+func Fintto64(a int64) int64 { return b64(float64(int(a))) }
+func Fintto32(a int64) int64 { return b32(float32(int(a))) }
 func Fint64to32(a int64) int64 { return b32(float32(a)) }
 func Fint32to64(a int64) int64 { return b64(float64(int32(a))) }
 func Fint32to32(a int64) int64 { return b32(float32(int32(a))) }
@@ -772,7 +774,7 @@ var vmOps = map[string]int{
 	"Fadd32": 32, "Fsub32": 32, "Fmul32": 32, "Fdiv32": 32, "Fneg32": 32,
 	"Feq32": 1, "Fgt32": 1, "Fge32": 1, "Flt32": 1, "Fle32": 1,
 	"F64to32": 32, "F32to64": 64,
-	"Fint64to64": 64, "Fint64to32": 32, "Fint32to64": 64, "Fint32to32": 32, "Fuint64to64": 64, "Fuint64to32": 32,
+	"Fintto64": 64, "Fintto32": 32, "Fint64to64": 64, "Fint64to32": 32, "Fint32to64": 64, "Fint32to32": 32, "Fuint64to64": 64, "Fuint64to32": 32,
 	"F64toint64": 64, "F64toint32": 32, "F64touint64": 64, "F32toint64": 64, "F32toint32": 32, "F32touint64": 64,
 }
 
